@@ -349,3 +349,118 @@ def normalise_loops(facts):
                         loopify(facts, f, bi, known)
                     except Exception:
                         pass
+
+
+# ---------------------------------------------------------------------------------------------------------------
+# Materialised conditions: `let ok = a && b; if !ok { .. }`, `if matches!(..)` - the compiler stores `true` / `false` /
+# the last comparison into a bool local in different blocks, joins, and switches on the local. Every path-sensitive
+# analysis loses the connection between the comparison and the branch at that join. Jump threading restores it: a
+# predecessor that stored a *constant* into the bool is sent directly to the switch target that constant selects
+# (through a copy of the join block's side-effect-free statements), exactly as if the source had branched in place.
+
+def _fold_bool(stmts, discr_local, known):
+    """value (0/1) of the switch operand after the statements of the join block, given {bool local: const}; None when
+    the statements do anything but copy / negate bools and mark storage"""
+    env = dict(known)
+    for s in stmts:
+        k = s['k']
+        if k == 'dead':
+            env.pop(s.get('l'), None)
+            continue
+        if k != 'assign':
+            return None
+        lhs = s['lhs']
+        rv = s['rv']
+        if lhs['p']:
+            return None
+        v = None
+        if rv['k'] == 'use':
+            a = rv['a']
+            pl = a.get('c') or a.get('m')
+            if pl is not None and not pl['p'] and pl['l'] in env:
+                v = env[pl['l']]
+            elif 'k' in a and isinstance(a['k'], dict) and a['k'].get('val') in (0, 1):
+                v = a['k']['val']
+        elif rv['k'] == 'unop' and rv.get('op') == 'Not':
+            a = rv['a']
+            pl = a.get('c') or a.get('m')
+            if pl is not None and not pl['p'] and pl['l'] in env:
+                v = 1 - env[pl['l']]
+        if v is None:
+            # an unrelated pure statement may stay (it is copied), as long as it does not touch the tracked locals
+            if rv['k'] in ('use', 'cast', 'unop', 'binop', 'ref', 'discr') and lhs['l'] not in env:
+                env.pop(lhs['l'], None)
+                continue
+            return None
+        env[lhs['l']] = v
+    return env.get(discr_local)
+
+
+def _const_bool_store(blk, local):
+    """constant stored into `local` by the last statement of blk that writes it (None when it is not a constant)"""
+    val = None
+    found = False
+    for s in blk['stmts']:
+        if s['k'] == 'assign' and s['lhs']['l'] == local:
+            found = True
+            val = None
+            if not s['lhs']['p'] and s['rv']['k'] == 'use':
+                a = s['rv']['a']
+                if 'k' in a and isinstance(a['k'], dict) and a['k'].get('val') in (0, 1):
+                    val = a['k']['val']
+    return found, val
+
+
+def thread_bools(facts):
+    n_threaded = 0
+    for fn in facts.fns.values():
+        if fn.crate not in ('fatfs', 'witness') or not fn.blocks:
+            continue
+        changed = False
+        nblocks = len(fn.blocks)
+        for j in range(nblocks):
+            J = fn.blocks[j]
+            t = J['term']
+            if J.get('cleanup') or t['k'] != 'switch':
+                continue
+            d = t['discr'].get('c') or t['discr'].get('m')
+            if d is None or d['p'] or fn.locals[d['l']]['ty'] is None:
+                continue
+            if (fn.types[fn.locals[d['l']]['ty']] or {}).get('k') != 'bool':
+                continue
+            # bool locals the switch operand is computed from inside J (or the operand itself)
+            cands = {d['l']}
+            for s in J['stmts']:
+                if s['k'] == 'assign' and not s['lhs']['p'] and s['lhs']['l'] in cands and s['rv']['k'] in ('use', 'unop'):
+                    a = s['rv']['a']
+                    pl = a.get('c') or a.get('m')
+                    if pl is not None and not pl['p']:
+                        cands.add(pl['l'])
+            # walk statements backwards to find the source bool that is live-in
+            srcs = set(cands)
+            for s in J['stmts']:
+                if s['k'] == 'assign' and not s['lhs']['p']:
+                    srcs.discard(s['lhs']['l'])
+            if len(srcs) != 1:
+                continue
+            b = next(iter(srcs))
+            preds = [pi for pi, P in enumerate(fn.blocks) if not P.get('cleanup') and P['term']['k'] == 'goto' and
+                     P['term'].get('ret') == j and pi != j]
+            for pi in preds:
+                P = fn.blocks[pi]
+                found, val = _const_bool_store(P, b)
+                if not found or val is None:
+                    continue
+                dv = _fold_bool(J['stmts'], d['l'], {b: val})
+                if dv is None:
+                    continue
+                tgt = next((tb for v, tb in t['targets'] if v == dv), t['otherwise'])
+                fn.blocks.append({'cleanup': False, 'stmts': copy.deepcopy(J['stmts']),
+                                  'term': {'k': 'goto', 'ret': tgt, 'span': t['span'], 'threaded_from': j}})
+                P['term'] = dict(P['term'], ret=len(fn.blocks) - 1)
+                changed = True
+                n_threaded += 1
+        if changed:
+            fn._succ = fn._pred = fn._dom = fn._pdom = fn._reach = None
+            fn.__dict__.pop('_bool_switch_cache', None)
+    facts.threaded = n_threaded
